@@ -45,6 +45,39 @@ theorem firstUnpromoted_none (l : List Entry) (start : Nat) (h : firstUnpromoted
     · simp only [Bool.not_eq_true] at hp
       simp [hp] at h
 
+/-- what the milestone-reached branch does: never continues; either nothing changes
+(milestone is `max_t`, not a rung) or exactly the milestone's rung gains the entry. -/
+theorem promoReached_spec (s s' : RungSys) (m : Mode) (tid : Nat) (v cost : Rat) (ms : Nat)
+    (ig : Bool) (o : RepOut) (h : s.promoReached m tid v cost ms ig = .ok (s', o)) :
+    (o.continues = false ∧ o.reached = true) ∧ o.ignoreData = ig ∧
+    (s' = s ∨ ∃ pos rg, s.rungs[pos]? = some rg ∧ rg.level = ms ∧ rg.contains tid = false ∧
+        s' = { s with rungs := s.rungs.set pos (rg.add m { tid := tid, val := v, cost := cost }) } ∧
+        o.next = some (nextAbove s.rungs pos s.maxT)) := by
+  unfold RungSys.promoReached at h
+  cases hp : rungPos s.rungs ms with
+  | none =>
+    simp only [hp] at h
+    injection h with h; injection h with h1 h2; subst h1; subst h2
+    exact ⟨⟨rfl, rfl⟩, rfl, Or.inl rfl⟩
+  | some pos =>
+    simp only [hp] at h
+    cases hr : s.rungs[pos]? with
+    | none => simp [hr] at h
+    | some rg =>
+      simp only [hr] at h
+      by_cases hc : rg.contains tid = true
+      · simp [hc] at h
+      · simp only [hc, Bool.false_eq_true, if_false] at h
+        injection h with h; injection h with h1 h2; subst h1; subst h2
+        refine ⟨⟨rfl, rfl⟩, rfl, Or.inr ⟨pos, rg, hr, ?_, by simpa using hc, rfl, rfl⟩⟩
+        unfold rungPos at hp
+        have := List.findIdx?_eq_some_iff_getElem.mp hp
+        obtain ⟨hlt, hprop, _⟩ := this
+        have hget : s.rungs[pos] = rg := by
+          have := List.getElem?_eq_some_iff.mp hr; exact this.2
+        rw [hget] at hprop
+        simpa using hprop
+
 /-- result of the promotion scan, decomposed: which rung was chosen and why. -/
 theorem promoScan_some (ty : HBType) (m : Mode) (numThr cap : Nat) (hint : Option Nat) (next : Nat)
     (thr : List (Nat × Rat)) (rs : List Rung) (o : SchedOut)
